@@ -25,12 +25,12 @@ def build_blocks(tier, seed):
         mem3, _ = gen.enumerate_blocks(gen.mem_vocab(small=True), [["*", "*", "*"]], 4)
         sto, _ = gen.enumerate_blocks(gen.sto_vocab(), [["*"], ["*", "*"]], 4)
         sto3, _ = gen.enumerate_blocks(gen.sto_vocab(), [["*", "*", "*"]], 4)
-        xs = mem + sto + corpus.sample(mem3, 700, seed) + corpus.sample(sto3, 500, seed)
+        xs = mem + sto + corpus.sample(mem3, 300, seed) + corpus.sample(sto3, 200, seed)
         sim = []
         for v, n in ((gen.mem_vocab(), 40), (gen.sto_vocab(), 25), (gen.mem_vocab(small=True) + gen.sto_vocab(), 35)):
             b, _ = gen.enumerate_blocks(v, [["*"] * 6], 5, simulate=(n, 7), seed=seed)
             sim += b
-        real = corpus.sample(corpus.real_blocks(), 400, seed)
+        real = corpus.sample(corpus.real_blocks(), 200, seed)
     else:
         mem, _ = gen.enumerate_blocks(gen.mem_vocab(small=True), [["*"], ["*", "*"], ["*", "*", "*"]], 4)
         sto, _ = gen.enumerate_blocks(gen.sto_vocab(), [["*"], ["*", "*"], ["*", "*", "*"]], 4)
@@ -95,10 +95,12 @@ def run(tier):
     seed = common.seed()
     cmds, gstats = build_blocks(tier, seed)
     sets = OPTSETS[:4] if tier == "quick" else OPTSETS
-    res = pool.run_matrix([(["-greedy"] + argv, [dict(c) for c in cmds]) for _, argv in sets], timeout=20)
+    def pick(i):
+        return cmds if (i == 0 or tier != "quick") else corpus.sample(cmds, len(cmds) * 2 // 5, seed + i)
+    res = pool.run_matrix([(["-greedy"] + argv, [dict(c) for c in pick(i)]) for i, (_, argv) in enumerate(sets)], timeout=20)
     cases, cnt = cases_from([(n, r) for (n, _), r in zip(sets, res)], maxops=6 if tier == "quick" else 8, min_ops=1)
     for c in cases:
-        c["cap"] = (48 if c["nops"] <= 4 else 24) if tier == "quick" else (256 if c["nops"] <= 4 else 64 if c["nops"] <= 6 else 24)
+        c["cap"] = (32 if c["nops"] <= 4 else 16) if tier == "quick" else (256 if c["nops"] <= 4 else 64 if c["nops"] <= 6 else 24)
     verdicts, st = denote.run_denote(cases, 48)
     viol, undec, multi, diag = [], 0, 0, 0
     for c in cases:
@@ -112,7 +114,8 @@ def run(tier):
         elif cl[0] == "diagnostic":
             diag += 1
     out = findings.settle("C02", viol, lambda c: {"sub_block": c["_sub"], "block": c["_block"], "options": c["_opt"], "deps": c["_deps"],
-                                                  "key": c["_sub"] + " @" + c["_opt"]})
+                                                  "key": c["_sub"] + " @" + c["_opt"]},
+                          lambda c: [c["_sub"] + " @" + c["_opt"]] + (["misaligned-overlap"] if findings.misaligned_overlap(c["_sub"]) else []))
     if multi == 0:
         raise common.MachineryError("vacuity guard: no specification with two or more memory operations was explored")
     cov = {"states": st["states"], "transitions": st["transitions"], "traces_validated_against_impl": len(cases),
